@@ -46,6 +46,9 @@ type member struct {
 	ViaPtr   bool // the path passes through a pointer-typed struct member
 	IsLeaf   bool
 	Enclosed []string // proper prefixes (enclosing members)
+	// Promoted: reached through an embedded struct the package cannot name (an unexported embedded field of an imported
+	// type): the member is written without that field (dst.ID, not dst.base.ID)
+	Promoted bool
 }
 
 type tyWalker struct {
@@ -97,6 +100,36 @@ func (w tyWalker) members(ty int) []member {
 	var out []member
 	var rec func(t int, prefix string, viaPtr bool, enclosing []string, onPath map[int]bool, depth int)
 	rec = func(t int, prefix string, viaPtr bool, enclosing []string, onPath map[int]bool, depth int) {
+		direct := map[string]bool{}
+		if tt := w.ty(w.deref(t)); tt != nil {
+			for _, fl := range tt.Fields {
+				direct[fl.Name] = true
+			}
+			// members promoted through an embedded struct field that the package cannot refer to: the rule of the language
+			// lets it write them (r.ID = 1) although it cannot write r.base
+			for _, fl := range tt.Fields {
+				if !fl.Embedded || !fl.Foreign || isExportedGo(fl.Name) || fl.Name == "_" {
+					continue
+				}
+				if et := w.ty(fl.Ty); et == nil || et.Kind == "pointer" {
+					continue // through a nil embedded pointer the write would panic: no verdict
+				}
+				for _, pf := range w.accessibleFields(fl.Ty) {
+					if direct[pf.Name] {
+						continue // shadowed by a member of the outer struct
+					}
+					p := pf.Name
+					if prefix != "" {
+						p = prefix + "." + pf.Name
+					}
+					pd := w.ty(w.deref(pf.Ty))
+					if pd != nil && pd.IsStruct {
+						continue // struct-typed promoted members: no verdict
+					}
+					out = append(out, member{Path: p, Ty: pf.Ty, ViaPtr: viaPtr, IsLeaf: true, Enclosed: append([]string{}, enclosing...), Promoted: true})
+				}
+			}
+		}
 		for _, fl := range w.accessibleFields(t) {
 			p := fl.Name
 			if prefix != "" {
@@ -256,7 +289,14 @@ func specJudge(root string, c GCase, rep *CaseReport) []Judgement {
 				judgeCover(w, m.Name, mem, lines, add)
 				judgeWarnings(rep, root, m, lines, add)
 			case "C06":
-				judgeNotations(w, m.Name, srcTy, dstTy, mem, lines, ns[m.Name], caseOffAnywhere, add)
+				// promoted members are C05's subject: the notation rules speak about declared members
+				var declared []member
+				for _, x := range mem {
+					if !x.Promoted {
+						declared = append(declared, x)
+					}
+				}
+				judgeNotations(w, m.Name, srcTy, dstTy, declared, lines, ns[m.Name], caseOffAnywhere, add)
 			case "C04":
 				if len(raw) == 0 && !interfaceHasNotations(rep.Facts, so) {
 					judgeDefault(w, m.Name, srcTy, dstTy, lines, add)
@@ -331,7 +371,9 @@ func judgeCover(w tyWalker, fn string, mem []member, lines []BodyLine, add func(
 			}
 		}
 		countRule("C05:leaf-covered-exactly-once")
-		if n == 0 {
+		if n == 0 && m.Promoted {
+			add("C05|leaf-uncovered|promoted-through-inaccessible-embedded-struct", fn+": destination member "+m.Path+" is promoted through an embedded struct that the package cannot name; the package can write it, yet no line covers it")
+		} else if n == 0 {
 			add("C05|leaf-uncovered", fn+": destination member "+m.Path+" is covered by no line (no assignment, `// skip:` or `// no match:` on it or an enclosing member)")
 		} else if n > 1 {
 			add("C05|leaf-covered-twice", fn+": destination member "+m.Path+" is covered "+itoa(n)+" times: "+strings.Join(by, " | "))
